@@ -250,7 +250,9 @@ class ArrayUnionMatcher(CombinationMatcher):
         return self._docnum < self._doccount
 
     def max_quality(self):
-        return max(m.max_quality() for m in self._submatchers)
+        # The scores of the sub-matchers are added together, so the bound is
+        # the sum (not the maximum) of their bounds
+        return sum(m.max_quality() for m in self._submatchers) * self._boost
 
     def block_quality(self):
         return max(self._a)
